@@ -12,7 +12,7 @@ import (
 
 func (t *translator) translateFn(fi *fnInfo, emitDep func(*fnInfo)) {
 	c := &fctx{t: t, fi: fi, info: fi.pkg.TypesInfo, names: map[types.Object]string{}, used: map[string]bool{"fuel_": true, "jp": true, "r": true, "v": true},
-		emitDep: emitDep, owned: map[*types.Var]bool{}, nonNil: map[*types.Var]bool{}}
+		emitDep: emitDep, owned: map[*types.Var]bool{}, nonNil: map[*types.Var]bool{}, views: map[*types.Var]viewInfo{}}
 	defer func() {
 		if r := recover(); r != nil {
 			if e, ok := r.(trErr); ok {
@@ -34,7 +34,7 @@ func (t *translator) translateFn(fi *fnInfo, emitDep func(*fnInfo)) {
 	c.computeNatVars()
 	c.aliasCheck()
 	var hdr strings.Builder
-	fmt.Fprintf(&hdr, "/-- `%s` (%s) -/\ndef %s", goDisplayName(fi), t.pos(fi.decl), fi.leanName)
+	fmt.Fprintf(&hdr, "/-- `%s` (%s) -/\ndef %s«PRIMS»", goDisplayName(fi), t.pos(fi.decl), fi.leanName)
 	for _, p := range fi.params {
 		lt := c.ltype(fi.decl, p.Type())
 		nm := c.name(p)
@@ -62,7 +62,16 @@ func (t *translator) translateFn(fi *fnInfo, emitDep func(*fnInfo)) {
 	if strings.TrimSpace(body) == "" {
 		c.fail(fi.decl, "function body may fall off its end")
 	}
-	fi.code = hdr.String() + indent(pre.String()+body, "  ") + "\n"
+	prims := ""
+	if fi.usesPrims {
+		prims = " (P : Prims)"
+	}
+	fi.code = strings.Replace(hdr.String(), "«PRIMS»", prims, 1) + indent(pre.String()+body, "  ") + "\n"
+	for i, a := range fi.aux {
+		fi.aux[i] = strings.ReplaceAll(a, "«LOOPPRIMS»", prims)
+		fi.aux[i] = strings.ReplaceAll(fi.aux[i], "«LOOPP»", map[bool]string{true: " P", false: ""}[fi.usesPrims])
+	}
+	fi.code = strings.ReplaceAll(fi.code, "«LOOPP»", map[bool]string{true: " P", false: ""}[fi.usesPrims])
 }
 
 func indent(s, pre string) string {
@@ -259,7 +268,7 @@ func (c *fctx) assignedOutside(scope ast.Node, nodes ...ast.Node) []*types.Var {
 				case "encoding/binary.Write", "sort.Slice":
 					add(rootVar(c.info, s.Args[0]))
 				}
-				if m, recv := c.stdMethod(s); m == "bytes.Buffer.Write" || m == "bufio.Reader.ReadByte" || m == "bytes.Reader.ReadByte" {
+				if m, recv := c.stdMethod(s); m == "bytes.Buffer.Write" || m == "bufio.Reader.ReadByte" || m == "bytes.Reader.ReadByte" || m == "hash.Hash.Write" || m == "hash.Hash.Reset" {
 					add(rootVar(c.info, recv))
 				}
 			case *ast.RangeStmt:
@@ -448,6 +457,11 @@ func (c *fctx) mayPanic(e ast.Expr) bool {
 			}
 			if c.errorCtor(x) {
 				return true
+			}
+			if sel, ok := x.Fun.(*ast.SelectorExpr); ok && sel.Sel.Name == "String" && len(x.Args) == 0 {
+				if _, isBasic := c.info.Types[sel.X].Type.Underlying().(*types.Basic); isBasic {
+					return true
+				}
 			}
 			p = true
 		}
@@ -855,7 +869,7 @@ func (c *fctx) forStmt(s *ast.ForStmt, rest []ast.Stmt, k string) string {
 	sparams, snames, stys := c.varDecls(s, state)
 	valueRet := c.hasValueReturn(s.Body)
 	retT, wrap := c.loopTypes(stys, valueRet)
-	recCall := name + " fuel_ " + strings.Join(append(append([]string{}, enames...), snames...), " ")
+	recCall := name + "«LOOPP» fuel_ " + strings.Join(append(append([]string{}, enames...), snames...), " ")
 	exit := "Res.ok (" + wrap + tupleVal(snames) + ")"
 	lc := &loopCtx{breakCode: exit, valueRet: valueRet}
 	lc.cont = func() string {
@@ -878,11 +892,11 @@ func (c *fctx) forStmt(s *ast.ForStmt, rest []ast.Stmt, k string) string {
 	c.inSwitch = savedSwitch
 	c.retStack = c.retStack[:len(c.retStack)-1]
 	c.loops = c.loops[:len(c.loops)-1]
-	def := fmt.Sprintf("/-- loop at %s -/\ndef %s (fuel : Nat) %s : Res (%s) :=\n  match fuel with\n  | 0 => Go.outOfFuel\n  | fuel_ + 1 =>\n%s\n",
+	def := fmt.Sprintf("/-- loop at %s -/\ndef %s«LOOPPRIMS» (fuel : Nat) %s : Res (%s) :=\n  match fuel with\n  | 0 => Go.outOfFuel\n  | fuel_ + 1 =>\n%s\n",
 		c.t.pos(s), name, strings.Join(append(append([]string{}, eparams...), sparams...), " "), retT,
 		indent(cpre+"if "+cond+" then (\n"+indent(body, "  ")+")\nelse ("+exit+")", "    "))
 	c.fi.aux = append(c.fi.aux, def)
-	call := name + " (" + fuel + ") " + strings.Join(append(append([]string{}, enames...), snames...), " ")
+	call := name + "«LOOPP» (" + fuel + ") " + strings.Join(append(append([]string{}, enames...), snames...), " ")
 	return pre + c.afterLoop(s, call, state, snames, rest, k, valueRet)
 }
 
@@ -1026,7 +1040,7 @@ func (c *fctx) rangeStmt(s *ast.RangeStmt, rest []ast.Stmt, k string) string {
 			binders = fmt.Sprintf("let %s : Int := (idx_ : Int);\n", c.name(kv))
 		}
 	}
-	recCall := name + " rest_ (idx_ + 1) " + strings.Join(append(append([]string{}, enames...), snames...), " ")
+	recCall := name + "«LOOPP» rest_ (idx_ + 1) " + strings.Join(append(append([]string{}, enames...), snames...), " ")
 	exit := "Res.ok (" + wrap + tupleVal(snames) + ")"
 	lc := &loopCtx{breakCode: exit, valueRet: valueRet}
 	lc.cont = func() string { return recCall }
@@ -1038,10 +1052,10 @@ func (c *fctx) rangeStmt(s *ast.RangeStmt, rest []ast.Stmt, k string) string {
 	c.inSwitch = savedSwitch
 	c.retStack = c.retStack[:len(c.retStack)-1]
 	c.loops = c.loops[:len(c.loops)-1]
-	def := fmt.Sprintf("/-- range loop at %s -/\ndef %s (xs_ : List %s) (idx_ : Nat) %s : Res (%s) :=\n  match xs_ with\n  | [] => %s\n  | %s :: rest_ =>\n%s\n",
+	def := fmt.Sprintf("/-- range loop at %s -/\ndef %s«LOOPPRIMS» (xs_ : List %s) (idx_ : Nat) %s : Res (%s) :=\n  match xs_ with\n  | [] => %s\n  | %s :: rest_ =>\n%s\n",
 		c.t.pos(s), name, et, strings.Join(append(append([]string{}, eparams...), sparams...), " "), retT, exit, elem,
 		indent(binders+body, "    "))
 	c.fi.aux = append(c.fi.aux, def)
-	call := name + " " + xs + " 0 " + strings.Join(append(append([]string{}, enames...), snames...), " ")
+	call := name + "«LOOPP» " + xs + " 0 " + strings.Join(append(append([]string{}, enames...), snames...), " ")
 	return pre + c.afterLoop(s, call, state, snames, rest, k, valueRet)
 }
